@@ -63,6 +63,8 @@ def run(repo, tier):
             sites.add((r['fn'], r['node'].lineno))
     rep.analysed['refusal sites reached'] = len(sites)
     encprops.check_registers(rep, facts, 'R6.registers')
+    # text front end: an operand token of an accepted line may not be silently ignored (c.lwsp x1, 8(x9) must not assemble as sp-relative)
+    encprops.check_ignored_tokens(rep, facts, 'R6.ignored-operand')
     check_bake_identity(rep, facts, 'R6.bake-identity')
     # an operand that a compression rule drops never reaches an encoder: the rule itself has to pin it to the one value the
     # compressed form stands for, or an out-of-range operand (addi x0, x0, 5000 -> c.nop) is accepted under -c
